@@ -965,9 +965,14 @@ impl DebugSession {
                     });
                 }
                 (MachineRunningState::Running, MachineRunningState::Running) => (),
-                (MachineRunningState::Launching, _) | (_, MachineRunningState::Launching) => {
-                    panic!("Should never receive any machine events during launch.");
+                // A client that resumes or steps before 'configurationDone' starts the machine that way
+                (MachineRunningState::Launching, MachineRunningState::Running) => (),
+                (MachineRunningState::Launching, MachineRunningState::Stopped(_)) => {
+                    let mut args = StoppedEventArguments::new(StoppedReason::Step);
+                    args.thread_id = Some(1);
+                    self.enqueue_event::<StoppedEvent>(args);
                 }
+                (_, MachineRunningState::Launching) => (),
             },
             MachineEvent::Message { output, location } => {
                 self.enqueue_event::<OutputEvent>(OutputEventArguments {
